@@ -167,9 +167,15 @@ namespace {
       }
       return s;
     }
+    // more events than any terminating run with this iterMax can produce: stop the solver (the hooks are
+    // the only place where a child can do so) and report the run as not terminating
+    struct Runaway {};
+    mutable std::size_t nevents = 0;
+    std::size_t max_events = 0;
     void ev(const std::string& s) const {
       if (!log.empty()) log += ";";
       log += s;
+      if (++nevents > max_events) throw Runaway{};
     }
 
     // ---- the residual oracle
@@ -314,7 +320,15 @@ namespace {
 #endif
         }
       }
-      const bool r = this->solveNonLinearSystem();
+      max_events = 24 * (static_cast<std::size_t>(this->iterMax) + 2) + 24;
+      bool r = false;
+      try {
+        r = this->solveNonLinearSystem();
+      } catch (const Runaway&) {
+        return log + ";RUNAWAY;ret=0 iter=" + std::to_string(this->iter) + " dd=" +
+               (this->is_delta_zeros_defined ? "1" : "0") + " calls=" + std::to_string(calls) + " z " +
+               vec(this->zeros) + " f " + vec(this->fzeros) + " dz " + vec(this->delta_zeros) + " J";
+      }
       std::string mat;
       for (unsigned short i = 0; i != N; ++i)
         for (unsigned short j = 0; j != N; ++j) mat += (i + j ? " " : "") + hx(matrix()(i, j));
